@@ -17,10 +17,13 @@ import (
 	"context"
 	"crypto/sha256"
 	"crypto/sha512"
+	"crypto/tls"
 	"encoding/binary"
 	"fmt"
 	"hash"
+	"strings"
 	"sync"
+	"sync/atomic"
 	"testing"
 	"testing/synctest"
 	"time"
@@ -172,6 +175,7 @@ type c07Res struct {
 	AfterOK    bool  `json:"after_ok"`    // a genuine payload written after the marker was read by the target
 	// empty pre-shared key leg (kind psk0) / resumed states leg (kind resume)
 	Mode    string `json:"mode,omitempty"`   // psk0: who returns the empty key, +-extended master secret; resume: when the state was captured
+	StNote  string `json:"st_note,omitempty"` // resume, direct states: what the State handed to Resume looked like
 	Side    string `json:"side,omitempty"`   // resume: whose state
 	Refused string `json:"refused,omitempty"` // resume: error of Resume ("" = it resumed)
 	Epoch0  int    `json:"epoch0"`            // resume: application_data records emitted at epoch 0
@@ -1034,9 +1038,57 @@ func c07Resume(t *testing.T, v c07Variant, rng *vRand, out *vOut) {
 			return nil
 		}
 	}
-	ccfg.verifyConnection = capture("verify/client")
-	scfg.verifyConnection = capture("verify/server")
+	// the SAME States, and more, kept as the *State the library handed out - no MarshalBinary/UnmarshalBinary round
+	// trip, whose import checks they therefore never meet: the VerifyConnection argument on both sides,
+	// ConnectionState() taken inside GetClientCertificate, ConnectionState() of both sides taken by another
+	// goroutine before every datagram of the handshake
+	direct := map[string]*State{}
+	var order []string
+	keep := func(name string, st *State) {
+		mu.Lock()
+		if _, ok := direct[name]; !ok {
+			direct[name] = st
+			order = append(order, name)
+		}
+		mu.Unlock()
+	}
+	both := func(name string) func(*State) error {
+		ser := capture(name)
+
+		return func(st *State) error {
+			keep(strings.Replace(name, "verify/", "verify-direct/", 1), st)
+
+			return ser(st)
+		}
+	}
+	ccfg.verifyConnection = both("verify/client")
+	scfg.verifyConnection = both("verify/server")
+	var labRef atomic.Pointer[vLab]
+	if scfg.ClientAuth != NoClientCert && len(ccfg.Certificates) > 0 {
+		crt := ccfg.Certificates[len(ccfg.Certificates)-1]
+		ccfg.getClientCertificate = func(*CertificateRequestInfo) (*tls.Certificate, error) {
+			if l := labRef.Load(); l != nil {
+				if st, ok := l.Client.Conn.ConnectionState(); ok {
+					keep("getcert-direct/client", &st)
+				}
+			}
+
+			return &crt, nil
+		}
+	}
 	lab := newLab(t, ccfg, scfg)
+	labRef.Store(lab)
+	lab.Pump.Policy = func(d vDatagram) (vAction, int) {
+		if d.Idx < 12 {
+			for _, p := range []*vPeer{lab.Client, lab.Server} {
+				if st, ok := p.Conn.ConnectionState(); ok {
+					keep(fmt.Sprintf("mid%d-direct/%s", d.Idx, p.Name), &st)
+				}
+			}
+		}
+
+		return vPass, 0
+	}
 	lab.Pump.run(lab.bothDone, 100*time.Second)
 	if lab.established() {
 		for _, p := range []*vPeer{lab.Client, lab.Server} {
@@ -1049,22 +1101,38 @@ func c07Resume(t *testing.T, v c07Variant, rng *vRand, out *vOut) {
 	}
 	done := lab.established()
 	lab.close()
-	for _, when := range []string{"verify", "established"} {
-		for _, side := range []string{"client", "server"} {
-			res := c07Res{Kind: "resume", Variant: v.Name, Mode: when, Side: side, Drop: -1, Stage: -1, Done: done}
-			raw, ok := captured[when+"/"+side]
-			if !ok {
-				res.Refused = "state not captured / not serialisable"
-				out.emit(res)
-
-				continue
+	if lab0 := labRef.Load(); lab0 != nil && done {
+		for _, p := range []*vPeer{lab0.Client, lab0.Server} {
+			if st, ok := p.Conn.ConnectionState(); ok {
+				keep("established-direct/"+p.Name, &st)
 			}
-			st := &State{}
-			if err := st.UnmarshalBinary(raw); err != nil {
-				res.Refused = "UnmarshalBinary: " + err.Error()
-				out.emit(res)
+		}
+	}
+	names := []string{"verify/client", "verify/server", "established/client", "established/server"}
+	names = append(names, order...)
+	for _, name := range names {
+		{
+			when, side, _ := strings.Cut(name, "/")
+			res := c07Res{Kind: "resume", Variant: v.Name, Mode: when, Side: side, Drop: -1, Stage: -1, Done: done}
+			var st *State
+			if strings.HasSuffix(when, "-direct") {
+				st = direct[name]
+				res.StNote = fmt.Sprintf("local epoch %d, master secret %d bytes", st.localEpoch, len(st.masterSecret))
+			} else {
+				raw, ok := captured[name]
+				if !ok {
+					res.Refused = "state not captured / not serialisable"
+					out.emit(res)
 
-				continue
+					continue
+				}
+				st = &State{}
+				if err := st.UnmarshalBinary(raw); err != nil {
+					res.Refused = "UnmarshalBinary: " + err.Error()
+					out.emit(res)
+
+					continue
+				}
 			}
 			n := newVNet()
 			ep := n.endpoint(side)
